@@ -435,7 +435,7 @@ def emit_pre(fn, ind, pre):
 
 
 def find_info(fn, qual: str):
-    return next((i for i in fn.known.values() if i.spec.qual == qual), None)
+    return fn.pick(qual) if hasattr(fn, "pick") else next((i for i in fn.known.values() if i.spec.qual == qual), None)
 
 
 # ---------------------------------------------------------------------------------------------- `Tag(…)`
